@@ -987,8 +987,15 @@ func c02MapEquality(c *core.Ctx) {
 	recv := recvVar(fd)
 	arg := fd.Obj.Type().(*types.Signature).Params().At(0)
 	ff := core.NewFuncFlow(fd)
+	eld := core.NewLocalDefs(info, fd.Decl.Body)
 	lenOf := func(e ast.Expr) *types.Var {
-		call, ok := ast.Unparen(e).(*ast.CallExpr)
+		e = ast.Unparen(e)
+		if id, ok := e.(*ast.Ident); ok {
+			if v := core.VarOf(info, id); v != nil && len(eld.All(v)) == 1 {
+				e = ast.Unparen(eld.Resolve(id, 2)) // size := len(em)
+			}
+		}
+		call, ok := e.(*ast.CallExpr)
 		if !ok || len(call.Args) != 1 {
 			return nil
 		}
@@ -1050,36 +1057,134 @@ func c02MapEquality(c *core.Ctx) {
 			return true
 		}
 		kv, vv := core.VarOf(cinfo, rs.Key), core.VarOf(cinfo, rs.Value)
-		var got, present *types.Var
-		cff := core.NewFuncFlow(cfd)
-		ast.Inspect(rs.Body, func(k ast.Node) bool {
-			if as, ok := k.(*ast.AssignStmt); ok && len(as.Lhs) == 2 && len(as.Rhs) == 1 {
-				if ix, ok := ast.Unparen(as.Rhs[0]).(*ast.IndexExpr); ok && core.VarOf(cinfo, ix.X) == crecv && core.VarOf(cinfo, ix.Index) == kv {
-					got, present = core.VarOf(cinfo, as.Lhs[0]), core.VarOf(cinfo, as.Lhs[1])
-				}
-			}
-			return true
-		})
-		for _, r := range cff.Flow.Returns() {
-			if !(rs.Pos() <= r.Pos() && r.End() <= rs.End()) || len(r.Results) != 1 {
-				continue
-			}
-			if tv, ok := cinfo.Types[ast.Unparen(r.Results[0])]; !ok || tv.Value == nil || tv.Value.String() != "false" {
-				continue
-			}
-			for leaf, val := range cff.Flow.CondsAt(r) {
-				l := ast.Unparen(leaf)
-				if present != nil && core.VarOf(cinfo, l) == present && !val {
-					okMissing = true
-				}
-				if be, ok := l.(*ast.BinaryExpr); ok && got != nil && vv != nil {
-					a, b := core.VarOf(cinfo, be.X), core.VarOf(cinfo, be.Y)
-					if ((a == got && b == vv) || (a == vv && b == got)) && ((be.Op == token.NEQ) == val) {
-						okDiffer = true
+		// the loop body is evaluated for one entry of the argument under the three situations:
+		// key missing in the receiver, present with another value, present with the same value
+		run := func(present, equal bool) string {
+			var got, pres *types.Var
+			bools := map[*types.Var]bool{}
+			var eval func(e ast.Expr) (bool, bool)
+			eval = func(e ast.Expr) (bool, bool) {
+				e = ast.Unparen(e)
+				switch x := e.(type) {
+				case *ast.Ident:
+					v := core.VarOf(cinfo, x)
+					if v != nil && v == pres {
+						return present, true
+					}
+					if b, ok := bools[v]; ok && v != nil {
+						return b, true
+					}
+					if tv, ok := cinfo.Types[x]; ok && tv.Value != nil {
+						return tv.Value.String() == "true", true
+					}
+				case *ast.UnaryExpr:
+					if x.Op == token.NOT {
+						b, ok := eval(x.X)
+						return !b, ok
+					}
+				case *ast.BinaryExpr:
+					switch x.Op {
+					case token.LAND, token.LOR:
+						l, ok := eval(x.X)
+						if !ok {
+							return false, false
+						}
+						if x.Op == token.LAND && !l {
+							return false, true
+						}
+						if x.Op == token.LOR && l {
+							return true, true
+						}
+						return eval(x.Y)
+					case token.EQL, token.NEQ:
+						a, b := core.VarOf(cinfo, x.X), core.VarOf(cinfo, x.Y)
+						if got != nil && vv != nil && ((a == got && b == vv) || (a == vv && b == got)) {
+							return equal == (x.Op == token.EQL), true
+						}
 					}
 				}
+				return false, false
 			}
+			var exec func(list []ast.Stmt) string
+			exec = func(list []ast.Stmt) string {
+				for _, st := range list {
+					switch x := st.(type) {
+					case *ast.DeclStmt:
+					case *ast.AssignStmt:
+						if len(x.Lhs) == 2 && len(x.Rhs) == 1 {
+							if ix, ok := ast.Unparen(x.Rhs[0]).(*ast.IndexExpr); ok && core.VarOf(cinfo, ix.X) == crecv && core.VarOf(cinfo, ix.Index) == kv {
+								got, pres = core.VarOf(cinfo, x.Lhs[0]), core.VarOf(cinfo, x.Lhs[1])
+								continue
+							}
+							return "?"
+						}
+						if len(x.Lhs) == 1 && len(x.Rhs) == 1 {
+							if v := core.VarOf(cinfo, x.Lhs[0]); v != nil {
+								if b, ok := eval(x.Rhs[0]); ok {
+									bools[v] = b
+									continue
+								}
+							}
+						}
+						return "?"
+					case *ast.IfStmt:
+						if x.Init != nil {
+							if r := exec([]ast.Stmt{x.Init}); r != "" {
+								return r
+							}
+						}
+						b, ok := eval(x.Cond)
+						if !ok {
+							return "?"
+						}
+						if b {
+							if r := exec(x.Body.List); r != "" {
+								return r
+							}
+						} else if x.Else != nil {
+							var r string
+							if blk, ok := x.Else.(*ast.BlockStmt); ok {
+								r = exec(blk.List)
+							} else {
+								r = exec([]ast.Stmt{x.Else})
+							}
+							if r != "" {
+								return r
+							}
+						}
+					case *ast.ReturnStmt:
+						if len(x.Results) == 1 {
+							if b, ok := eval(x.Results[0]); ok {
+								if b {
+									return "true"
+								}
+								return "false"
+							}
+						}
+						return "?"
+					case *ast.BranchStmt:
+						if x.Tok == token.CONTINUE {
+							return "next"
+						}
+						return "?"
+					case *ast.BlockStmt:
+						if r := exec(x.List); r != "" {
+							return r
+						}
+					default:
+						return "?"
+					}
+				}
+				return ""
+			}
+			r := exec(rs.Body.List)
+			if r == "" {
+				r = "next"
+			}
+			return r
 		}
+		okMissing = run(false, false) == "false" && run(false, true) == "false"
+		okDiffer = run(true, false) == "false" && run(true, true) == "next"
 		return true
 	})
 	c.Ob("C02-R6", cfd.Name()+"#entrywise", cfd.Decl.Pos(), okMissing && okDiffer,
